@@ -48,7 +48,7 @@ def run(report, tier, seed):
         ybin = vlib.build_yardl(sc)
         rng = random.Random(seed * 6007 + 10)
         n = 700 if quick else 12000
-        cases = list(corpus_cases(sc)) + list(generate_cases(rng, sc, seed, n)) + list(layered_cases(rng, sc, 6 if quick else 40))
+        cases = list(corpus_cases(sc)) + list(boundary_cases(rng, sc, quick)) + list(generate_cases(rng, sc, seed, n)) + list(layered_cases(rng, sc, 6 if quick else 40))
         with concurrent.futures.ThreadPoolExecutor(max_workers=vlib.NCPU) as ex:
             results = list(ex.map(lambda c: execute(ybin, c), cases))
         for c, (rc, out, secs, cmd) in zip(cases, results):
@@ -217,6 +217,42 @@ CORPUS = [
     ("generic-null-argument", "Box<T>: !record\n  fields:\n    v: T\nZ: !generic {name: Box, args: [null]}\n", None),
     ("empty-definitions", "E: !enum\nR: !record\nP: !protocol\nA:\n", None),
 ]
+
+
+BOUNDARY = [0, 1, 2, 3, 127, 128, 255, 256, 32767, 32768, 65535, 65536, 2 ** 31 - 1, 2 ** 31, 2 ** 32 - 1, 2 ** 32, 2 ** 53, 2 ** 63 - 1, 2 ** 63, 2 ** 63 + 1,
+            2 ** 64 - 1, 2 ** 64, 2 ** 64 + 1, 2 ** 65, 10 ** 30, 10 ** 400]
+
+# every place of a model where an integer is read: computed-field expressions (index arguments, subscripts, arithmetic, conversions) and YAML scalars
+INT_EXPRESSIONS = ["size(x, {n})", "size(y, {n})", "size(d, {n})", "size(v, {n})", "size(w, {n})", "x[{n}, 0]", "x[0, {n}]", "x[{n}]", "y[{n}, 0]", "d[{n}]", "v[{n}]", "w[{n}]",
+                   "x[p: {n}, q: 0]", "m[{n}]", "km[{n}]", "{n}", "a + {n}", "{n} - a", "a * {n}", "a / {n}", "a ** {n}", "{n} as int8", "{n} as uint64", "{n} as float32", "{n} as string",
+                   "dimensionIndex(x, {n})", "dimensionCount({n})", "size({n})", "{n}[0]", "s[{n}]", "({n})", "-{n}", "- {n}", "{n}.5", "{n}e{n}", "0x{h}", "{n} + {n}",
+                   "size(x, {n} + 0)", "x[{n} as int, 0]"]
+INT_YAML = ["V: !vector {{items: int, length: {n}}}", "A: !array {{items: int, dimensions: {n}}}", "A: !array {{items: int, dimensions: [{n}]}}", "A: !array {{items: int, dimensions: {{p: {n}}}}}",
+            "A: !array {{items: int, dimensions: [{n}, {n}]}}", "A: \"int[{n}]\"", "A: \"int[p:{n}]\"", "A: \"int*{n}\"", "A: \"int[{n},{n}]\"",
+            "E: !enum\n  values:\n    a: {n}", "E: !enum\n  base: uint8\n  values:\n    a: {n}", "E: !enum\n  base: int64\n  values:\n    a: {n}\n    b: -{n}",
+            "E: !flags\n  values:\n    a: {n}", "E: !flags\n  base: uint64\n  values:\n    a: {n}\n    b:", "E: !enum\n  values:\n    a: {n}\n    b:\n    c:"]
+
+
+def boundary_cases(rng, sc, quick):
+    """boundary integers in every position where the front end reads one (directed: all positions x all values on every tier)"""
+    man = "namespace: Fz\n"
+    rec = ("R: !record\n  fields:\n    a: int\n    s: string\n    x: !array {items: float, dimensions: [p, q]}\n    y: !array {items: float, dimensions: {p: 4, q: 8}}\n"
+           "    d: !array {items: float}\n    v: !vector {items: int, length: 3}\n    w: int*\n    m: string->int\n    km: uint64->int\n  computedFields:\n    c: ")
+    k = 0
+    for tmpl in INT_EXPRESSIONS:
+        for n in BOUNDARY:
+            for sign in ("", "-"):
+                if sign and tmpl.startswith("-"):
+                    continue
+                ex = tmpl.format(n=sign + str(n), h=format(n, "x"))
+                k += 1
+                yield Case("boundary:expression", sc.path(f"bnd{k}/pkg"), {"model.yml": rec + q(ex) + "\n"}, man)
+    for tmpl in INT_YAML:
+        for n in BOUNDARY:
+            for sign in ("", "-"):
+                k += 1
+                txt = tmpl.format(n=sign + str(n)) + "\nP: !protocol\n  sequence:\n    a: " + tmpl.split(":")[0] + "\n"
+                yield Case("boundary:yaml", sc.path(f"bnd{k}/pkg"), {"model.yml": txt}, man)
 
 
 def corpus_cases(sc):
